@@ -149,6 +149,14 @@ def luStep (st : LSt) (line : String) : IO LSt := do
     return { st with n := n, fam := fam, A := A, LU := LU, stats := { stats with cases := stats.cases + 1 }, sample := sample,
                      fillIn := st.fillIn + (if nnzLU > nnzA then 1 else 0), storedZeros := st.storedZeros + (if vals.any (· == 0) then 1 else 0),
                      unsortedRows := st.unsortedRows + (if unsorted then 1 else 0) }
+  | "LUBIG" :: rest =>
+    let be := (Hex.parseFloat ((kv rest "backward_error").getD "")).getD 1.0
+    let mut st := st
+    if !(be ≤ 9.3e-10) ∨ (kv rest "finite") != some "1" then
+      IO.println s!"ORACLE C16 backward error {be} above 2^-30 (or a non-finite entry) for a strictly diagonally dominant lattice system n={(kv rest "n").getD ""} ctor={(kv rest "ctor").getD ""} right-hand side no {(kv rest "rhs_no").getD ""} (VERIF_SEED reproduces the matrix)"
+      st := { st with oracleFails := st.oracleFails + 1 }
+    let stats ← check st.stats true fun _ => ""
+    return { st with stats := stats }
   | "S" :: rest =>
     let rhsS := (kv rest "rhs").getD ""; let xS := (kv rest "x").getD ""
     let rhs := parseRats rhsS; let x := parseRats xS
